@@ -19,7 +19,9 @@ open Atomman Atomman.C09 Atomman.Gen
     unit cp…                   → value | err:value        `uc.unit[name]` under the state scalings
     set n x1…xn cp…            → n values | err           `uc.set_in_units([x…], str)`
     get n x1…xn cp…            → n values | err           `uc.get_in_units([x…], str)`
-    setlit cp…                 → value | err:value        `uc.set_literal(str)` (scalar literals)
+    setlit cp…                 → value | err:value        `uc.set_literal(str)` when the result is a scalar
+    setlitv cp…                → shape | values | err     `uc.set_literal(str)`: shape (`-` scalar, else d1,d2,…) and the
+                                                          values in row-major order (numbers, nested lists / tuples)
     radicand L M T E Q         → value | none             quantity under the square root of `reset_units`
                                                           (each of L M T E Q: `-` or cp,cp,…)
     reset L M T E Q r          → m kg s C K | err:value   base scalings after `reset_units(**kw)`, `r` = the root
@@ -226,6 +228,18 @@ def step (sc : Scales Rat) (toks : List String) : Scales Rat × String :=
           let unit := strip (cs.drop j)
           isBig (parseUnits gvAlg envG (if unit.isEmpty then none else some unit)) then (sc, err "size")
       else (sc, showL ((Call.setlit cs).reply rAlg unitTable sc))
+    | none => (sc, err "format")
+  | "setlitv" :: rest =>
+    match chars? rest with
+    | some cs =>
+      if (splitPoints cs).any fun j =>
+          let unit := strip (cs.drop j)
+          isBig (parseUnits gvAlg envG (if unit.isEmpty then none else some unit)) then (sc, err "size")
+      else
+        match setLiteralV rAlg env cs with
+        | some (sh, vs) =>
+          (sc, (if sh.isEmpty then "-" else ",".intercalate (sh.map toString)) ++ " | " ++ showRats vs)
+        | none => (sc, err "value")
     | none => (sc, err "format")
   | "radicand" :: rest =>
     match choice? rest with
